@@ -1007,7 +1007,16 @@ func (r *Raft) leadershipTransfer(id ServerID, address ServerAddress, repl *foll
 	for atomic.LoadUint64(&repl.nextIndex) <= r.getLastIndex() {
 		err := &deferError{}
 		err.init()
-		repl.triggerDeferErrorCh <- err
+		// The replication routine may be busy (backing off) or gone (we lost
+		// leadership) while an earlier request still sits in the channel:
+		// never block on it without watching stopCh, or nobody ever clears
+		// leadershipTransferInProgress again.
+		select {
+		case repl.triggerDeferErrorCh <- err:
+		case <-stopCh:
+			doneCh <- nil
+			return
+		}
 		select {
 		case err := <-err.errCh:
 			if err != nil {
